@@ -8,7 +8,11 @@ JOBS = [
     ("symtab", "MCSymTab", "MCSymTab_refine.cfg", dict(coverage=True, cache_key="refine")),
     ("symtab", "MCSymTab", "MCSymTab_graph9.cfg", dict(cache_key="graph", keep_tags={"EDGE"})),
     ("symtab", "MCSymTab", "MCSymTab_graph.cfg", dict(cache_key="graph", keep_tags={"EDGE"})),
+    ("lexemes", "LexemeGen", "LexemeGen_pairs.cfg", dict(cache_key="pairs", keep_tags={"CASE", "POOL", "SEPS"})),
+    ("pipeline", "Pipeline", "Pipeline.cfg", dict(workers=4, coverage=True, keep_tags={"CASE"}, cache_key="gating")),
+    ("literals", "LiteralsGen", "LiteralsGen.cfg", dict(workers=1, xss="1g", cache_key="lit", keep_tags={"CASE", "COUNT"})),
 ]
 for d, m, c, kw in JOBS:
-    r = run_tlc(d, m, c, workers=8, timeout=1500, **kw)
+    kw.setdefault('workers', 8)
+    r = run_tlc(d, m, c, timeout=1500, **kw)
     print(d, m, c, "ok" if r.ok else "FAILED", "cached" if r.cached else f"{r.wall:.0f}s", file=sys.stderr)
